@@ -1633,3 +1633,174 @@ Proof.
     split; [vm_compute; reflexivity|]. split; [vm_compute; reflexivity|]. split; [vm_compute; reflexivity|].
     split; [vm_compute; auto|]. split; [vm_compute; reflexivity|]. vm_compute. discriminate.
 Qed.
+
+(* ------------------------------------------------------------------ L. a refused request is not lost: persistence of the entry *)
+Lemma lat_step_slot_keep s g n now o i e :
+  MInv s -> LInv s g n -> op_ok s o = true ->
+  alive s (le_bar e) = true -> mslot (get_bar s (le_bar e)) = Some i -> lg_slot g i = Some e ->
+  (forall st, op_draw s now o <> Some (le_bar e, st)) -> silent_change s now o (le_bar e) = false ->
+  lg_slot (lat_step s now o n g) i = Some e.
+Proof.
+  intros MI LI Hk Ha Hm He Hnd Hns. unfold lat_step.
+  assert (Hown : forall b', alive s b' = true -> b_target (get_bar s b') = TMulti i -> b' = le_bar e).
+  { intros b' Ha' Ht'. symmetry. eapply (li_live _ _ _ LI); eauto. apply mslot_Some; exact Ht'. }
+  destruct (op_draw s now o) as [[b st]|] eqn:Hd.
+  - destruct (b_target (get_bar s b)) as [|tg|idx] eqn:Ht; try exact He. cbn [lg_slot].
+    destruct (N.eq_dec i idx) as [<-|Hn]; [|rewrite fupd_neq by exact Hn; exact He].
+    exfalso. pose proof (ok_alive s o b Hk (op_draw_bar s now o b st Hd)) as Hab.
+    apply (Hnd st). rewrite (Hown b Hab Ht). reflexivity.
+  - destruct (insert_slot s o) as [idx|] eqn:Hi.
+    + cbn [lg_slot]. destruct (N.eq_dec i idx) as [<-|Hn]; [|rewrite fupd_neq by exact Hn; exact He].
+      exfalso. destruct o; try discriminate Hi.
+      destruct (insert_op_actions 0 s now loc b i Hk Hi) as (l & m1 & _ & Hins & _).
+      destruct (ms_insert_spec (s_mp s) l m1 i (MInv_core s MI) Hins) as (Hfresh & _).
+      apply Hfresh. eapply (mi_alive s MI); eauto. apply mslot_Some; exact Hm.
+    + destruct (op_bar o) as [b|] eqn:Hb; [|exact He].
+      destruct (silent_change s now o b) eqn:Hs; [|exact He].
+      destruct (b_target (get_bar s b)) as [|tg|idx] eqn:Ht; try exact He.
+      destruct (lg_slot g idx) as [e0|] eqn:He0; [|exact He]. cbn [lg_slot].
+      destruct (N.eq_dec i idx) as [<-|Hn]; [|rewrite fupd_neq by exact Hn; exact He].
+      exfalso. pose proof (ok_alive s o b Hk Hb) as Hab. rewrite (Hown b Hab Ht) in Hs. congruence.
+Qed.
+
+Section Persist.
+  Variable W H : N.
+  Variable fails : N -> bool.
+  Local Notation step_sys := (step_sys W H fails).
+  Local Notation run := (run W H fails).
+  Local Notation hist_ok := (hist_ok W H fails).
+  Local Notation lrun := (lrun W H fails).
+
+  Lemma alive_back s now o x : op_ok s o = true -> alive (step_sys s now o) x = true -> alive s x = true.
+  Proof.
+    intros Hk Hx. destruct (step_bar_facts W H fails s now o Hk x) as (A & _). rewrite A in Hx.
+    apply andb_prop in Hx. tauto.
+  Qed.
+
+  Lemma alive_back_run h : forall s x, hist_ok s h -> alive (run s h) x = true -> alive s x = true.
+  Proof.
+    induction h as [|[now o] r IH]; intros s x Hh Hx; cbn [MultiSpec.run] in Hx; [exact Hx|].
+    destruct Hh as [Hk Hr]. eapply alive_back; eauto.
+  Qed.
+
+  Lemma persist h : forall s a g n b i e,
+    MInv s -> Refines s a -> mp_visible s -> LInv s g n -> hist_ok s h -> quiet W H fails s b h ->
+    alive (run s h) b = true -> mslot (get_bar s b) = Some i -> lg_slot g i = Some e -> le_bar e = b ->
+    lg_slot (snd (lrun s n g h)) i = Some e /\ mslot (get_bar (run s h) b) = Some i.
+  Proof.
+    induction h as [|[now o] r IH]; intros s a g n b i e MI RF Vis LI Hh Hq Ha Hm He Hb;
+      cbn [MultiLatest.lrun MultiSpec.run]; [auto|].
+    destruct Hh as [Hk Hr]. destruct Hq as (Q1 & Q2 & Q3 & Q4).
+    destruct (step_sim W H fails s a now o MI RF Hk) as (rr & MI' & RF').
+    cbn [MultiSpec.run] in Ha. pose proof (alive_back_run r _ b Hr Ha) as Ha1. pose proof (alive_back s now o b Hk Ha1) as Ha0.
+    eapply IH; eauto.
+    - apply step_visible; assumption.
+    - apply lat_step_inv; assumption.
+    - destruct (step_bar_facts W H fails s now o Hk b) as (_ & B & _). rewrite B. unfold slot_after.
+      destruct o; try exact Hm.
+      + (* OInsert: b is a member already, so the inserted bar is another one *)
+        destruct (N.eqb_spec b b0) as [->|Hn]; [|exact Hm]. exfalso.
+        unfold op_ok in Hk. cbn [op_bar] in Hk. apply andb_prop in Hk. destruct Hk as [_ Hk].
+        apply andb_prop in Hk. destruct Hk as [Hnm _]. apply negb_true_iff in Hnm. unfold is_member in Hnm.
+        apply mslot_Some in Hm. rewrite Hm in Hnm. discriminate.
+      + destruct (N.eqb_spec b b0) as [->|Hn]; [congruence | exact Hm].
+    - subst b. apply lat_step_slot_keep; assumption.
+  Qed.
+End Persist.
+
+(** C05: a draw request of member [b] - painted OR refused by the refresh limiter of the MultiProgress
+    target - is not lost: as long as nothing touches [b] afterwards ([quiet]), every frame composed by
+    a later call of another member or of the MultiProgress shows [frame_of] the state [b] had at that
+    request, which is still its current state *)
+Theorem nothing_lost_target_limiter (W H : N) (fails : N -> bool) (s0 : sys) (h1 h2 h3 : list (N * op))
+    (now now2 : N) (o o2 : op) (b i : N) (st : bar) :
+  init_ok s0 -> mp_visible s0 ->
+  hist_ok W H fails s0 (h1 ++ (now, o) :: h2 ++ (now2, o2) :: h3) ->
+  let s1 := run W H fails s0 h1 in
+  let s1' := step_sys W H fails s1 now o in
+  let s2 := run W H fails s1' h2 in
+  let s2' := step_sys W H fails s2 now2 o2 in
+  op_draw s1 now o = Some (b, st) -> b_target (get_bar s1 b) = TMulti i ->
+  quiet W H fails s1' b (h2 ++ [(now2, o2)]) -> alive s2' b = true ->
+  forall m f ex, In (m, f, ex) (step_draws W H fails s2 now2 o2) -> In i (ms_order m) ->
+    member_lines (ms_members m) i = frame_of (get_bar s2' b)
+    /\ logic (get_bar s2' b) = logic st.
+Proof.
+  intros Hi Vis Hh. cbn zeta. intros Hd Ht Hq Ha m f ex Hin Hio.
+  (* split the history *)
+  assert (Hh' : hist_ok W H fails s0 ((h1 ++ [(now, o)]) ++ (h2 ++ [(now2, o2)]) ++ h3)).
+  { rewrite <- !app_assoc. exact Hh. }
+  apply hist_ok_app in Hh'. destruct Hh' as [HhA HhB]. apply hist_ok_app in HhB. destruct HhB as [HhB _].
+  pose proof HhA as HhA'. apply hist_ok_app in HhA'. destruct HhA' as [Hh1 [Hk _]].
+  rewrite run_app in HhB. cbn [run] in HhB.
+  destruct (lrun_all W H fails s0 h1 Hi Vis Hh1) as (A1 & B1 & MI1 & V1 & LI1 & _). cbn zeta in *.
+  destruct (lrun_all W H fails s0 (h1 ++ [(now, o)]) Hi Vis HhA) as (A & B & MI & V & LI & HF). cbn zeta in *.
+  rewrite lrun_app in A, MI, V, LI, HF. set (r1 := lrun W H fails s0 0 lg_empty h1) in *.
+  destruct r1 as [[s1 n1] g1] eqn:Er1. cbn [fst snd] in *. cbn [lrun fst snd] in A, MI, V, LI, HF. subst s1 n1.
+  set (s1 := run W H fails s0 h1) in *. set (s1' := step_sys W H fails s1 now o) in *.
+  set (g1' := lat_step s1 now o (length h1) g1) in *. rewrite app_length in LI. cbn [length] in LI.
+  (* the entry written by the request *)
+  assert (He : lg_slot g1' i = Some (mkle b (length h1) st true)).
+  { unfold g1', lat_step. rewrite Hd, Ht. cbn [lg_slot]. apply fupd_eq. }
+  assert (Hm' : mslot (get_bar s1' b) = Some i).
+  { destruct (step_bar_facts W H fails s1 now o Hk b) as (_ & Bs & _). unfold s1'. rewrite Bs, (slot_after_draw _ _ _ _ _ Hd).
+    apply mslot_Some. exact Ht. }
+  destruct (init_inv H fails s0 Hi) as [MI0 RF0].
+  destruct (sim_run_end W H fails _ _ _ (sim_run W H fails _ s0 _ MI0 RF0 HhA)) as (a' & _ & RF').
+  rewrite run_app in RF'. cbn [run] in RF'. fold s1 s1' in RF'.
+  assert (Ha2 : alive (run W H fails s1' (h2 ++ [(now2, o2)])) b = true) by (rewrite run_app; exact Ha).
+  destruct (persist W H fails (h2 ++ [(now2, o2)]) s1' a' g1' _ b i _ MI RF' V LI HhB Hq Ha2 Hm' He eq_refl) as [P1 P2].
+  (* the state and ghost before the later call *)
+  assert (Hfull : hist_ok W H fails s0 ((h1 ++ (now, o) :: h2) ++ (now2, o2) :: h3)).
+  { rewrite <- app_assoc. exact Hh. }
+  apply hist_ok_app in Hfull. destruct Hfull as [Hh12 [Hk2 _]].
+  destruct (lrun_all W H fails s0 (h1 ++ (now, o) :: h2) Hi Vis Hh12) as (A2 & B2 & MI2 & V2 & LI2 & _). cbn zeta in *.
+  rewrite run_app in A2, Hk2. cbn [run] in A2, Hk2. fold s1 s1' in A2, Hk2.
+  set (r2 := lrun W H fails s0 0 lg_empty (h1 ++ (now, o) :: h2)) in *.
+  destruct r2 as [[s2 n2] g2] eqn:Er2. cbn [fst snd] in *. subst s2 n2.
+  (* the ghost after the later call is the one [persist] speaks about *)
+  assert (Eg : lat_step (run W H fails s1' h2) now2 o2 (length (h1 ++ (now, o) :: h2)) g2
+               = snd (lrun W H fails s1' (length h1 + 1) g1' (h2 ++ [(now2, o2)]))).
+  { assert (E2 : g2 = snd (lrun W H fails s0 0 lg_empty (h1 ++ (now, o) :: h2))) by (unfold r2 in Er2; rewrite Er2; reflexivity).
+    rewrite E2. change (h1 ++ (now, o) :: h2) with (h1 ++ [(now, o)] ++ h2). rewrite app_assoc.
+    rewrite (lrun_app W H fails (h1 ++ [(now, o)])), (lrun_app W H fails h1). unfold r1 in Er1. rewrite Er1. cbn [lrun].
+    fold s1 s1' g1'. rewrite (lrun_app W H fails h2).
+    destruct (lrun_fst W H fails h2 s1' (S (length h1)) g1') as [E1 E3].
+    replace (length h1 + 1)%nat with (S (length h1)) by lia.
+    destruct (lrun W H fails s1' (S (length h1)) g1' h2) as [[sx nx] gx]. cbn [fst snd] in *. cbn [lrun snd].
+    subst sx nx. rewrite !app_length. cbn [length]. f_equal. lia. }
+  destruct (step_draws_lines W H fails _ g2 _ now2 o2 m f ex MI2 V2 LI2 Hk2 Hin i Hio) as [Hi2 SL].
+  rewrite Eg, P1 in SL. cbn [ent_lines le_state] in SL.
+  assert (P1' : lg_slot (lat_step (run W H fails s1' h2) now2 o2 (length (h1 ++ (now, o) :: h2)) g2) i
+                = Some (mkle b (length h1) st true)) by (rewrite Eg; exact P1).
+  pose proof (lat_step_sync_pre W H fails _ g2 _ now2 o2 i _ LI2 Hk2 Hi2 P1' eq_refl) as Hl. cbn [le_state le_bar] in Hl.
+  split; [|symmetry; exact Hl].
+  unfold member_lines. unfold lines_at in SL. rewrite SL. apply frame_of_logic. exact Hl.
+Qed.
+
+(* ------------------------------------------------------------------ M. a position update one interval after the last reaching one reaches BarState *)
+From IndGen Require Import Constants.
+
+Lemma ap_allow_after a now :
+  ap_start a <= now -> now - ap_start a < U64 -> ap_prev a + AP_INTERVAL_NS <= now - ap_start a ->
+  fst (ap_allow a now) = true.
+Proof.
+  intros H1 H2 H3. unfold ap_allow.
+  destruct (N.ltb_spec now (ap_start a)) as [Hc|_]; [lia|].
+  rewrite (N.mod_small (now - ap_start a) U64) by exact H2.
+  destruct (N.ltb_spec (now - ap_start a - ap_prev a) AP_INTERVAL_NS) as [Hc|_]; [lia|].
+  rewrite andb_false_r. reflexivity.
+Qed.
+
+(** inc / dec / set_position at least AP_INTERVAL_NS (1 ms) after the instant [ap_prev] of the bar's
+    position limiter (its last reaching update or reset, rounded down to the grid) IS a draw step,
+    with the new position *)
+Theorem pos_draw_reaches x f now :
+  ap_start (b_ap x) <= now -> now - ap_start (b_ap x) < U64 ->
+  ap_prev (b_ap x) + AP_INTERVAL_NS <= now - ap_start (b_ap x) ->
+  exists st, pos_draw x f now = Some st /\ b_pos st = f (b_pos x) /\ b_len st = b_len x /\ b_msg st = b_msg x.
+Proof.
+  intros H1 H2 H3. unfold pos_draw. cbn [b_ap set_b_pos].
+  pose proof (ap_allow_after (b_ap x) now H1 H2 H3) as Ha.
+  destruct (ap_allow (b_ap x) now) as [a ap']. cbn [fst] in Ha. subst a. eexists. split; [reflexivity|]. cbn. auto.
+Qed.
